@@ -77,6 +77,95 @@ def two_gate_program(rng: random.Random) -> dict:
     return {"program": [{"name": "g0", "nodes": nodes, "bound": []}], "values": [["ia", 0], ["ib", 1], ["x", 2]]}
 
 
+def _fn(name: str, params: list[str], outs: list[str], **extra: Any) -> dict:
+    d = {"name": name, "kind": "fn", "params": [[q, None] for q in params], "dataOuts": outs, "body": {"b": "tag", "t": name}}
+    d.update(extra)
+    return d
+
+
+def n_way_gate(rng: random.Random) -> tuple[list[dict], list[dict] | None, str]:
+    """An exclusive route gate with 3-4 targets t_i(x)->a_i; P hangs below ONE branch, S below one or two branches.  S and P writing one
+    name is fine when their branches are disjoint (exclusive), a mistake when S is also below P's branch (and they are unordered)."""
+    k = rng.choice([3, 3, 4])
+    ts = [f"t{i}" for i in range(k)]
+    gate = {"name": "pick", "kind": "route", "params": [["mode", None]], "targets": list(ts), "multiTarget": False, "fallback": None,
+            "defaultOpen": rng.random() < 0.7, "body": {"b": "table", "rows": [[i, t] for i, t in enumerate(ts)], "dflt": ts[-1]}}
+    i, j = rng.sample(range(k), 2)
+    base = [gate] + [_fn(t, ["x"], [f"a{n}"]) for n, t in enumerate(ts)]
+    P = _fn("P", [f"a{i}"], ["report"])
+    s_excl = _fn("S", [f"a{j}"], ["report"])                       # below another branch only: exclusive with P
+    s_both = _fn("S", [f"a{i}", f"a{j}"], ["report"])              # below P's branch as well: not exclusive, not ordered
+    s_fixed = _fn("S", [f"a{i}", f"a{j}"], ["report_s"])
+    valid = base + [P, rng.choice([s_excl, s_fixed])]
+    flawed = base + [P, s_both]
+    rng.shuffle(valid)
+    rng.shuffle(flawed)
+    mk = lambda ns: [{"name": "g0", "nodes": ns, "bound": []}]   # noqa: E731
+    return mk(valid), mk(flawed), "dup_producer_shared_branch"
+
+
+def signal_branches(rng: random.Random) -> tuple[list[dict], list[dict] | None, str]:
+    """Branch membership and producer ordering that exist ONLY through emit / wait_for."""
+    check = {"name": "check", "kind": "ifelse", "params": [["flag", None]], "targets": ["a", "b"], "body": {"b": "lt", "k": 1}, "defaultOpen": rng.random() < 0.7}
+    a = _fn("a", ["x"], ["av"], emits=["a_done"])
+    mk = lambda ns, **kw: [dict({"name": "g0", "nodes": ns, "bound": []}, **kw)]   # noqa: E731
+    which = rng.choice(["A", "B", "C"])
+    if which == "A":
+        # `late` takes data from b and waits for a's signal: below BOTH branches, so exclusive with neither; unordered with from_a
+        b = _fn("b", ["x"], ["bv"])
+        from_a = _fn("from_a", ["av"], ["v"])
+        late = {"name": "late", "kind": "fn", "params": [["bv", {"d": 0}]], "dataOuts": ["v"], "body": {"b": "tag", "t": "late"}, "waitFor": ["a_done"]}
+        valid = [check, a, b, from_a, dict(late, dataOuts=["v_late"])]
+        flawed = [check, a, b, from_a, late]
+        rng.shuffle(valid)
+        rng.shuffle(flawed)
+        return mk(valid), mk(flawed), "dup_producer_signal_branch"
+    if which == "B":
+        # explicit edges; two producers of x ordered by a signal only: valid.  Without the signal: two unordered producers
+        first = {"name": "first", "kind": "fn", "params": [], "dataOuts": ["x"], "body": {"b": "const", "v": 1}, "emits": ["first_done"]}
+        second = {"name": "second", "kind": "fn", "params": [], "dataOuts": ["x"], "body": {"b": "const", "v": 2}, "waitFor": ["first_done"]}
+        consumer = _fn("consumer", ["x"], ["result"])
+        edges = [["first", "consumer"], ["second", "consumer"]]
+        if rng.random() < 0.5:
+            edges = [["first", "consumer", ["x"]], ["second", "consumer", ["x"]]]
+        valid = [first, second, consumer]
+        flawed = [first, {k: v for k, v in second.items() if k != "waitFor"}, consumer]
+        return mk(valid, edges=edges), mk(flawed, edges=edges), "dup_producer_unordered_explicit"
+    # C: after_a belongs to the a-branch only through the signal; the b-branch node writes the same name: exclusive, valid.
+    after_a = {"name": "after_a", "kind": "fn", "params": [["x", None]], "dataOuts": ["v"], "body": {"b": "tag", "t": "after_a"}, "waitFor": ["a_done"]}
+    b = _fn("b", ["x"], ["v"])
+    valid = [check, a, b, after_a]
+    # without the wait the node is in no branch at all: not exclusive with b
+    flawed = [check, dict(a), b, {k: v for k, v in after_a.items() if k != "waitFor"}]
+    rng.shuffle(valid)
+    rng.shuffle(flawed)
+    return mk(valid), mk(flawed), "dup_producer_no_branch"
+
+
+def explicit_typed(rng: random.Random) -> tuple[list[dict], list[dict] | None, str]:
+    """strict_types with EXPLICIT edges and two signal-ordered producers of one name: each producer's edge is typed on its own."""
+    good = rng.choice(["int", "bool"])
+    first = {"name": "first", "kind": "fn", "params": [["s", None]], "dataOuts": ["m"], "body": {"b": "tag", "t": "first"}, "emits": ["first_done"],
+             "ann": {"s": "int", "return": good}}
+    second = {"name": "second", "kind": "fn", "params": [["s", None]], "dataOuts": ["m"], "body": {"b": "tag", "t": "second"}, "waitFor": ["first_done"],
+              "ann": {"s": "int", "return": "int"}}
+    consumer = {"name": "consumer", "kind": "fn", "params": [["m", None]], "dataOuts": ["res"], "body": {"b": "tag", "t": "consumer"},
+                "ann": {"m": "int", "return": "str"}}
+    edges = [["first", "consumer"], ["second", "consumer"]]
+    if rng.random() < 0.5:
+        edges.reverse()
+    bad = copy.deepcopy([first, second, consumer])
+    victim = bad[rng.choice([0, 1, 1])]
+    if rng.random() < 0.5:
+        victim["ann"]["return"] = "str"
+        flaw = "type_mismatch_second_producer"
+    else:
+        del victim["ann"]["return"]
+        flaw = "missing_annotation_second_producer"
+    mk = lambda ns: [{"name": "g0", "nodes": ns, "bound": [], "strict": True, "edges": edges}]   # noqa: E731
+    return mk([first, second, consumer]), mk(bad), flaw
+
+
 def _find(nodes: list[dict], name: str) -> dict | None:
     return next((n for n in nodes if n["name"] == name), None)
 
@@ -303,6 +392,8 @@ class C19(Prop):
         d0 = [e for _, e in tu.type_universe(0)]
         d1 = [e for _, e in tu.type_universe(1)] if tier == "thorough" else None
         i = 0
+        # every dedicated family is visited several times per run, whatever the seed
+        forced = [n_way_gate, signal_branches, explicit_typed, signal_branches] * 4
         while True:
             i += 1
             if i % 4 == 0:
@@ -314,6 +405,16 @@ class C19(Prop):
                 rows = rng.sample(pool, min(len(pool), 12))
                 cols = rng.sample(pool, min(len(pool), 40))
                 yield {"kind": "types", "rows": rows, "cols": cols}
+                continue
+            r = rng.random()
+            if forced or r < 0.09:
+                fam = forced.pop() if forced else rng.choice([n_way_gate, signal_branches, signal_branches, explicit_typed])
+                valid, flawed, flaw = fam(rng)
+                if rng.random() < 0.3:
+                    # the same inside a nested graph
+                    wrap = lambda pr: [pr[0], {"name": "outer", "nodes": [{"name": "w", "kind": "graph", "inner": 0}], "bound": []}]   # noqa: E731
+                    valid, flawed = wrap(valid), wrap(flawed)
+                yield {"kind": "struct", "program": valid, "flaw": flaw, "flawed": flawed, "gi": 0, "late": rng.random() < 0.5}
                 continue
             r = rng.random()
             if r < 0.06:
